@@ -53,7 +53,7 @@ def run(tier):
     tot["cases"] += n
     return seqxrun.finish(
         PROP, tier, "model_checking", tot, t,
-        rule="BFS over message sequences (7 texts incl. null/empty/case/whitespace/NFC-NFD x 5 types x 2 pipelines sharing one DuplicateFilter and one SeqNumberAttr) "
+        rule="BFS over message sequences (9 texts incl. null/empty/case/whitespace/NFC-NFD and a pair with equal length and equal polynomial hash x 5 types x 2 pipelines sharing one DuplicateFilter and one SeqNumberAttr) "
              "with canonical state read by probing copies of the handlers; all 25 threshold x type pairs of LevelFilter on every message; plus plain enumeration "
              "without state merging to a smaller depth; plus RegExpFilter verdicts for every expression <= K tokens x every text <= 3 over {a,b,LF} against Python re",
         assumptions=["PCRE and Python re agree on the enumerated regex grammar; expressions either engine rejects are excluded (counted)",
